@@ -20,7 +20,9 @@ comment.  What is generated text (and therefore re-checked by the theorems of `P
 
 The array pipeline of the two weight routines (`n_p = …` down to `s_ab = np.prod(s_ab, axis=-1)`) is NOT translated
 statement by statement: its source text is pinned (any edit is `Untranslatable`, except in the three formulas that
-`translate/becke.py` carries into `Gen/Becke.lean`) and it becomes the single primitive `cellTab <route>`.
+`translate/becke.py` carries into `Gen/Becke.lean`) and it becomes the single primitive `cellTab <route>`.  The
+`warnings.warn(<message>, stacklevel=…)` inside it has no effect on the value: its message must be a plain (f-)string, its
+keyword literals are carried into the generated comment (a change shows in the regenerated text, no theorem depends on it).
 Anything outside this repertoire raises `Untranslatable` (the check treats that as a broken proof obligation).
 """
 import ast
@@ -53,11 +55,26 @@ PIPELINE = [
 
 
 def _is_warn(st):
-    """if len(indices) != 0: warnings.warn(...)  -- no effect on the value"""
-    return (
+    """if len(indices) != 0: warnings.warn(<text>, <keyword>=<literal> …)  -- no effect on the value; the message must be a
+    plain (f-)string without calls, the keywords literals (they are carried into the generated comment)"""
+    ok = (
         isinstance(st, ast.If) and not st.orelse and _src(st.test) == "len(indices) != 0" and len(st.body) == 1
         and isinstance(st.body[0], ast.Expr) and isinstance(st.body[0].value, ast.Call) and _src(st.body[0].value.func) == "warnings.warn"
     )
+    if not ok:
+        return False
+    call = st.body[0].value
+    if len(call.args) != 1 or not isinstance(call.args[0], (ast.JoinedStr, ast.Constant)):
+        return False
+    if any(isinstance(n, (ast.Call, ast.NamedExpr, ast.Await, ast.Yield, ast.Lambda)) for n in ast.walk(call.args[0])):
+        return False
+    return all(k.arg is not None and isinstance(k.value, ast.Constant) for k in call.keywords)
+
+
+def _warn_text(st):
+    call = st.body[0].value
+    kws = "".join(f", {k.arg}={_src(k.value)}" for k in call.keywords)
+    return f"if {_src(st.test)}: warnings.warn(<message>{kws})"
 
 
 class Ty:
@@ -308,6 +325,8 @@ class Block:
             st = body[j]
             if want == "<warn>":
                 ok = _is_warn(st)
+                if ok:
+                    warn = _warn_text(st)
             elif want == "<radii>":
                 ok = isinstance(st, ast.Assign) and _src(st.targets[0]) == "radii"
                 if ok:
@@ -320,6 +339,7 @@ class Block:
                 raise Untranslatable(f"{self.meth}: array pipeline: `{_src(st)[:120]}` where `{want}` is expected")
             j += 1
         self.emit(ind, f"-- [array pipeline `{_src(body[i])[:40]}…` to `{_src(body[j - 1])}`: text pinned, entry by entry = `cellTab {self.route}`]")
+        self.emit(ind, f"-- [{warn}: no effect on the value]")
         self.emit(ind, f"-- radii = np.array([… for num in atnums])   (`{self.radius_fn}`)")
         self.emit(ind, f"let radii ← atnums.mapM ({self.radius_fn} self.radii)")
         self.emit(ind, f"let s_ab := cellTab {self.route} self.order atcoords radii points")
